@@ -186,3 +186,30 @@ Proof.
     + apply na_bind; [apply Hc; reflexivity|intros c']. apply na_bind; [apply IHcs; exact Hcs|intros; discriminate].
 Qed.
 
+(* extend_until: the fourth operation whose Concurrence form catches the child's AttributeError *)
+Definition eu_go (prolong : bool) (d : Z) := fix go (l : list ev) : res (list ev) :=
+  match l with
+  | [] => Ok []
+  | Leaf d0 l0 :: r =>
+      if prolong then (r' <- go r ; Ok (Leaf (if 0 <? d - d0 then d0 + (d - d0) else d0) l0 :: r'))
+      else Err EImpossibleToExtendUntil
+  | c :: r => c' <- extend_until prolong c d ; r' <- go r ; Ok (c' :: r')
+  end.
+
+Theorem extend_until_attribute_error_only_from_leaf : forall e prolong d,
+  is_leaf e = false -> na (extend_until prolong e d).
+Proof.
+  induction e as [d0 l0|m cs IH|m cs IH] using ev_ind'; intros prolong d L; [discriminate|cbn [extend_until]; discriminate|].
+  change (extend_until prolong (Sim m cs) d) with
+    (match cs with [] => Err EIneffectiveExtendUntil | _ => r <- eu_go prolong d cs ; Ok (Sim m r) end).
+  destruct cs as [|c0 r0]; [discriminate|].
+  apply na_bind; [|intros; discriminate]. clear L.
+  induction (c0 :: r0) as [|c r IHr]; [discriminate|]. inversion IH as [|? ? Hc Hr]; subst. specialize (IHr Hr).
+  destruct c as [d1 l1|m1 cs1|m1 cs1].
+  - cbn [eu_go]. fold (eu_go prolong d). destruct prolong; [|discriminate].
+    apply na_bind; [exact IHr|intros; discriminate].
+  - cbn [eu_go]. fold (eu_go prolong d). apply na_bind; [apply Hc; reflexivity|intros c'].
+    apply na_bind; [exact IHr|intros; discriminate].
+  - cbn [eu_go]. fold (eu_go prolong d). apply na_bind; [apply Hc; reflexivity|intros c'].
+    apply na_bind; [exact IHr|intros; discriminate].
+Qed.
